@@ -18,7 +18,8 @@ RULE = ("postconditions on SegmentTensor.intersect, PolygonTensor.intersect and 
         "the pierce point of a 3D polygon, face hits of a polyhedron; operand pairs with infinitely many common points are judged only for "
         "'no spurious point'. Workload: all lattice segment pairs of {-2..2}^2 (quick: a residue class, thorough: all), polygon zoo x lattice lines and "
         "segments, cuboids/tetrahedra x lattice lines and segments incl. hits through vertices and edges, parallel faces, misses, collections. "
-        "Non-trivial: every judged call; distinct by operand digest.")
+        "Non-trivial: every judged call; distinct by operand digest."
+        " Also: solids and polygons moved after a first query, with the lines moved along and the old lines.")
 SHARDS = (8, 16)
 REQUIRED = ["segment.intersect", "polygon.intersect", "polyhedron.intersect"]
 ASSUMPTIONS = ["operands must be exactly representable (integers / dyadic) for the exact reference; other calls are skipped and counted"]
